@@ -45,7 +45,7 @@ AXES = {
             ("admittance", [False, True, None]),
             ("add_capacitance", [True, False]),
             ("add_inductance", [True, False]),
-            ("num_RCs", [None, None, "few", "range"]),
+            ("num_RCs", [None, "empty", "few", "range"]),
             ("num_F_ext_evaluations", [0, 0, 10, 20, -10]),
             ("rapid_F_ext_evaluations", [True, False]),
             ("n", SIZES),
@@ -58,7 +58,7 @@ AXES = {
             ("admittance", [False, True]),
             ("add_capacitance", [True, False]),
             ("add_inductance", [True, False]),
-            ("num_RCs", [None, None, "few"]),
+            ("num_RCs", [None, "empty", "few"]),
             ("num_F_ext_evaluations", [0, 10, 11, 14, 20, -10, -12]),
             ("rapid_F_ext_evaluations", [True, False]),
             ("limits", ["default", "narrow", "wide"]),
@@ -207,6 +207,8 @@ def build_workload(group, opts, rng):
                 kw["num_RCs"] = [2, 3, 5]
             elif v == "range":
                 kw["num_RCs"] = list(range(2, 9))
+            elif v == "empty":
+                kw["num_RCs"] = []  # documented equivalent of None: "determine the range automatically"
             else:
                 kw["num_RCs"] = None
         if opts.get("limits") == "narrow":
